@@ -47,21 +47,25 @@ def cut (b : Bytes) : List Nat → List Bytes
   | n :: ns => b.take n :: cut (b.drop n) ns
 
 /-- content field: either hex bytes or `z<N>` (N zero bytes) or several joined with `+` -/
+def parsePart (part : String) : Option Bytes :=
+  match part.toList with
+  | 'z' :: rest => (String.ofList rest).toNat?.map (fun n => List.replicate n 0)
+  | 'r' :: rest =>   -- r<N>x<HH>: N copies of byte HH
+    match (String.ofList rest).splitOn "x" with
+    | [n, h] => do
+      let n ← n.toNat?
+      let hb ← unhex h
+      match hb with
+      | [x] => some (List.replicate n x)
+      | _ => none
+    | _ => none
+  | _ => unhex part
+
+/-- `+`-separated parts, each hex, `z<N>` (N zero bytes) or `r<N>x<HH>`; the parts are collected
+    and flattened once (linear in the content length) -/
 def parseContent (s : String) : Option Bytes :=
   if s = "-" then some [] else
-  (s.splitOn "+").foldlM (fun acc part =>
-    match part.toList with
-    | 'z' :: rest => (String.ofList rest).toNat?.map (fun n => acc ++ List.replicate n 0)
-    | 'r' :: rest =>   -- r<N>x<HH>: N copies of byte HH
-      match (String.ofList rest).splitOn "x" with
-      | [n, h] => do
-        let n ← n.toNat?
-        let hb ← unhex h
-        match hb with
-        | [x] => some (acc ++ List.replicate n x)
-        | _ => none
-      | _ => none
-    | _ => (unhex part).map (acc ++ ·)) []
+  ((s.splitOn "+").mapM parsePart).map List.flatten
 
 /-- feed with a trace after every chunk -/
 def feedTrace : Insp → List Bytes → List String → Insp × Option Err × List String
